@@ -29,7 +29,7 @@ Definition ch_tok_none : token := {| t_signer := 0%N; t_alg := 0%N; t_tampered :
 Definition ch_pick (l : list bs) (n : nat) : bs := match n with O => [] | S n' => nth n' l [] end.
 
 Definition ch_req (e : chenv) (cd hi hs bi bp vm : nat) : treq :=
-  {| tr_post := true; tr_grant := gt_authcode; tr_redirect := nth cd (ch_redirects e) [];
+  {| tr_conn := conn_none; tr_post := true; tr_grant := gt_authcode; tr_redirect := nth cd (ch_redirects e) [];
      tr_code := nth cd (ch_codes e) ch_tok_none;
      tr_verifier := match vm with O => [] | _ => ch_V e end;
      tr_vhash := match vm with O => [] | _ => ch_HV e end;
